@@ -7,6 +7,7 @@
 #include <cmath>
 #include <cstdlib>
 #include <limits>
+#include <random>
 #include <vector>
 
 static int const K = 16; // integer scale of parameters and coordinates
@@ -274,6 +275,54 @@ static void multi_run(int run, int kind, vt::rng& g)
     vt::ev("End").i("run", run).i("ndists", (long long) out.size()).emit();
 }
 
+// ---- combination of several iterations: every bin of the combination is the combination of that bin's results (a bin is an integration
+// of its own) - also when the integrand returned zero everywhere in an iteration and only its observable was filled
+template <typename T> static bool near_or_same(T a, T b)
+{
+    if (std::isnan(a) || std::isnan(b)) return std::isnan(a) && std::isnan(b);
+    if (a == b) return true;
+    return std::fabs(a - b) <= T(16) * std::numeric_limits<T>::epsilon() * std::fmax(std::fabs(a), std::fabs(b));
+}
+template <typename T>
+static void acc_bins(int run, vt::rng& g)
+{
+    std::size_t const first = 6 + g.below(6);
+    std::vector<std::size_t> calls{first, 40 + g.below(20), 40 + g.below(20)};
+    if (run % 2) std::swap(calls[0], calls[1]); // the iteration without a non-zero value first or second
+    std::size_t const quiet = run % 2 ? 1 : 0;
+    std::size_t seen = 0, iter = 0, left = calls[0];
+    auto fn = [&](hep::mc_point<T> const& p, hep::projector<T>& pr) {
+        T x = p.point()[0], v = T(1) + x;
+        pr.add(0, x, v);                       // the observable is booked before any cut
+        pr.add(1, x, p.point()[1], v * v);
+        bool const q = iter == quiet;
+        ++seen;
+        if (--left == 0 && iter + 1 < calls.size()) { ++iter; left = calls[iter]; }
+        return q ? T() : v;                   // no point passes the cut in the quiet iteration
+    };
+    auto integrand = hep::make_integrand<T>(fn, 2, hep::make_dist_params<T>(4, T(), T(1), "x"), hep::distribution_parameters<T>(2, 3, T(), T(1), T(), T(1), "xy"));
+    auto r = hep::plain(integrand, calls, hep::make_plain_chkpt<T>(std::mt19937((unsigned) g.below(100000))), hep::callback<hep::default_plain_chkpt<T>>(hep::callback_mode::silent));
+    long long bad_v = 0, bad_e = 0, nbins = 0;
+    auto const& rs = r.results();
+    auto cv = hep::accumulate<hep::weighted_with_variance>(rs.begin(), rs.end());
+    auto ce = hep::accumulate<hep::weighted_equally>(rs.begin(), rs.end());
+    for (std::size_t d = 0; d != 2; ++d)
+        for (std::size_t b = 0; b != rs[0].distributions()[d].results().size(); ++b)
+        {
+            std::vector<hep::mc_result<T>> column;
+            for (auto const& it : rs) column.push_back(it.distributions()[d].results()[b]);
+            auto wv = hep::accumulate<hep::weighted_with_variance>(column.begin(), column.end());
+            auto we = hep::accumulate<hep::weighted_equally>(column.begin(), column.end());
+            auto const& gv = cv.distributions()[d].results()[b];
+            auto const& ge = ce.distributions()[d].results()[b];
+            ++nbins;
+            if (gv.calls() != wv.calls() || gv.non_zero_calls() != wv.non_zero_calls() || !near_or_same(gv.value(), wv.value()) || !near_or_same(gv.error(), wv.error())) ++bad_v;
+            if (ge.calls() != we.calls() || ge.non_zero_calls() != we.non_zero_calls() || !near_or_same(ge.value(), we.value()) || !near_or_same(ge.error(), we.error())) ++bad_e;
+        }
+    vt::ev("AccBins").i("run", run).s("T", vt::type_name<T>::get()).i("quietNz", (long long) rs[quiet].non_zero_calls()).i("nbins", nbins).i("badVar", bad_v).i("badEq", bad_e)
+        .i("seen", (long long) seen).emit();
+}
+
 int main(int argc, char** argv)
 {
     if (argc < 4) return 2;
@@ -285,6 +334,7 @@ int main(int argc, char** argv)
     fill1_family<double>(g, thorough);
     fill1_family<long double>(g, thorough);
     fill1_awkward<float>(g, thorough); fill1_awkward<double>(g, thorough); fill1_awkward<long double>(g, thorough);
+    for (int r = 0; r != (thorough ? 12 : 4); ++r) { acc_bins<float>(3 * r, g); acc_bins<double>(3 * r + 1, g); acc_bins<long double>(3 * r + 2, g); }
     int runs = thorough ? 60 : 12;
     for (int r = 0; r != runs; ++r)
     {
